@@ -39,7 +39,10 @@ namespace vh
         if (op == "kernel")
         {
             namespace fsd = fastscapelib::detail;
-            const auto& im = h.fg->impl();
+            // on the graph itself or on one of its snapshot graphs
+            std::string sname = s.get_str("snap", "");
+            auto* fgp = sname.empty() ? h.fg.get() : &h.fg->graph_snapshot(sname);
+            const auto& im = fgp->impl();
             std::string dir = s.get_str("dir", "breadth");
             int nthreads = static_cast<int>(s.get_int("thr", 1));
             kernel_shared sh;
@@ -117,14 +120,15 @@ namespace vh
             std::string threw;
             try
             {
-                h.fg->apply_kernel(k, kd);
+                fgp->apply_kernel(k, kd);
             }
             catch (const std::exception& e)
             {
                 threw = exc_kind(e);
             }
-            o.str("e", "Kernel").num("g", g).str("dir", dir).num("thr", nthreads);
+            o.str("e", "Kernel").num("g", g).str("snap", sname).str("dir", dir).num("thr", nthreads);
             o.num("minblock", k.min_block_size).num("minlevel", k.min_level_size).str("threw", threw);
+            o.num("init", s.get_int("init", 0));
             o.ints("calls", sh.calls).ints("begin", sh.begin).ints("end", sh.end).ints("out", sh.out);
             std::vector<long> distinct(sh.thread_of);
             std::sort(distinct.begin(), distinct.end());
